@@ -5,6 +5,7 @@ must be mirrored, in order, by the corresponding use of the second (flags / imag
 argument, and the fill argument that the family's table prescribes.  Plus default-initialisation witnesses.
 The iterator primitives' lockstep is decided by C12.step; at() of the flag bitset by C03.
 """
+import re
 from .. import clangjson as cj
 from .. import ir
 from ..report import Report
@@ -250,6 +251,70 @@ def rule_init(rep):
     w.run(rep)
 
 
+REALLOC = {"resize", "reserve", "clear", "assign", "push_back", "emplace_back", "insert", "erase", "shrink_to_fit", "swap", "operator=", "pop_back"}
+
+
+def rule_alias(rep, d):
+    """a value passed by reference may be an element of the container itself (`v.resize(n, v[0])`): it must have been consumed before the storage it
+    may live in is reallocated.  std::vector::resize(n, x) itself copes with x being one of its elements, so the only safe order is: the first
+    call that may reallocate a storage is the one that receives the part of the value living in that storage."""
+    from .. import flow
+    R = "C11.alias"
+    rep.rule(R, "in members taking a value by reference, no part of that value is read after a call that may reallocate the storage the part may alias "
+                "(value()/real() part: first storage, has_value()/imag() part: second storage)")
+    n = 0
+    for fam, f in FAMILIES.items():
+        for fn in ir.functions(d):
+            cls = ir.enclosing_class(d, fn)
+            if cls is None or cls.get("name") not in f["classes"] or not ir.is_template_pattern(d, fn) or ir.body(fn) is None:
+                continue
+            refs = [p for p in ir.params(fn) if "&" in ir.wtype(p) and "&&" not in ir.wtype(p) and "size_type" not in ir.wtype(p)
+                    and not re.search(r"self_type|initializer_list|x(optional|complex)_(sequence|vector|array)\s*(<|&|$)", ir.wtype(p))]
+            if not refs:
+                continue
+            label = "%s::%s(%s)" % (cls["name"], fn.get("name"), ", ".join(ir.wtype(p).split("::")[-1] for p in ir.params(fn)))
+            try:
+                paths = flow.function_paths(fn, with_ctor_inits=True)
+            except cj.AnalysisBroken:
+                continue
+            touched = False
+            bad = None
+            for path in paths:
+                moved = set()
+                for st in path:
+                    if st[0] not in ("ev", "cond", "decl", "return") or not isinstance(st[1], dict):
+                        continue
+                    node = st[1]
+                    t = ir.sx(node) if st[0] != "decl" else (ir.sx(ir.ekids(node)[-1]) if ir.ekids(node) else ("none",))
+                    for p in refs:
+                        v = p.get("name")
+                        whole_is_value = not any(x in ir.wtype(p) for x in ("xoptional<", "xcomplex<", "value_type")) or "base_value_type" in ir.wtype(p)
+                        for sub in ir.subterms(t):
+                            parts = None
+                            if sub[0] == "call" and sub[1][0] == "mem" and sub[1][1] == ("ref", v) and len(sub) == 2:
+                                parts = {f["a"]} if sub[1][2] == f["acc_a"] else ({f["b"]} if sub[1][2] == f["acc_b"] else {f["a"], f["b"]})
+                            elif sub == ("ref", v) and not any(s2[0] == "call" and s2[1][0] == "mem" and s2[1][1] == ("ref", v) for s2 in ir.subterms(t) if s2 is not sub):
+                                parts = {f["a"]} if whole_is_value else {f["a"], f["b"]}
+                            if parts and parts & moved:
+                                bad = bad or (node, "`%s` is read after %s may have been reallocated: if it refers to an element of this container it is gone" % (
+                                    ir.show(sub), " / ".join(sorted(parts & moved))))
+                    if st[0] == "ev" and t[0] == "call" and t[1][0] == "mem" and t[1][2] in REALLOC:
+                        base = t[1][1]
+                        for fld in (f["a"], f["b"]):
+                            if base == ("mem", ("this",), fld) or base == ("ref", fld):
+                                moved.add(fld)
+                                touched = True
+            if not touched:
+                continue
+            n += 1
+            if bad:
+                rep.violates(R, label, "reference parameter consumed before reallocation", where=d.where(bad[0]), detail=bad[1])
+            else:
+                rep.holds(R, label, "reference parameter consumed before reallocation", where=d.where(fn), detail="%d paths" % len(paths))
+    if n < 3:
+        raise cj.AnalysisBroken("C11.alias: only %d members with a reference value parameter and a reallocating call found" % n)
+
+
 MAKE_DRIVER = '''#include "xtl/xsequence.hpp"
 #include <array>
 #include <vector>
@@ -462,5 +527,6 @@ def run(tier):
     rule_default_ctor(rep, d)
     rule_init(rep)
     rule_make(rep)
+    rule_alias(rep, d)
     rule_flags(rep)
     return rep
